@@ -9,6 +9,7 @@ import Asn1.X690
 import Asn1.BerSpec
 import Proofs.Parse
 import Proofs.Complete
+import Proofs.KernelLen
 
 namespace Asn1.C09
 
@@ -24,6 +25,34 @@ theorem every_framing_accepted (t : TLV) (tail : Bytes) (hw : t.WF) :
     for over-long forms) -/
 example : HdrOk [0x04, 0x82, 0x00, 0x03] ⟨.universal, false, 4⟩ (.definite 3) :=
   ⟨[0x04], [0x82, 0x00, 0x03], rfl, fun _ => rfl, fun _ => rfl⟩
+
+/-! ### at the source level: the decoder's length block, translated from /repo on this run -/
+
+/-- the `stDecodeLength` block of `SingleItemDecoder.__call__` (ber/decoder.py; translated by gen/py2lean.py into
+    `GenK.decodeLength`, the two stream reads being its arguments) computes the model's `decodeLength`: every first
+    octet, whatever follows; `supportIndefLength` as a parameter -/
+theorem source_length_decoding_is_model (allowIndef : Bool) (b : UInt8) (rest : Bytes) :
+    GenK.decodeLength allowIndef (b.toNat : Int) (Kernels.bytesInts (rest.take (b.toNat % 128))) =
+      Kernels.liftDecLen allowIndef (decodeLength (b :: rest)) :=
+  Kernels.decodeLength_kernel allowIndef b rest
+
+/-- **every legal length header is read as its length by the source**: whenever the octets `b :: lb` are a length
+    header for `n` in the sense of `HdrOk` (short form, long form, long form with redundant leading zeros) and `n`
+    does not exceed `sys.maxsize`, the translated block answers `n` -/
+theorem source_length_any_form (allowIndef : Bool) (b : UInt8) (lb : Bytes) (n : Nat)
+    (h : ∀ r, decodeLength ((b :: lb) ++ r) = .ok (.definite n, r)) (hn : n ≤ 9223372036854775807) :
+    GenK.decodeLength allowIndef (b.toNat : Int) (Kernels.bytesInts (lb.take (b.toNat % 128))) = .ok (n : Int) := by
+  have h0 := h []
+  simp only [List.append_nil] at h0
+  rw [Kernels.decodeLength_kernel allowIndef b lb, h0]
+  have : ¬ ((n : Int) > 9223372036854775807) := by omega
+  simp [Kernels.liftDecLen, this]
+
+/-- over-long form: `82 00 03` is read as 3; the indefinite marker as -1 by BER and refused by a codec without
+    indefinite lengths (DER) -/
+example : GenK.decodeLength true 0x82 [0, 3] = .ok 3 := by rfl
+example : GenK.decodeLength true 0x80 [] = .ok (-1) := by rfl
+example : GenK.decodeLength false 0x80 [] = .error (.lib "PyAsn1Error") := by rfl
 
 /-- the BER decoder tables extracted from the source admit everything the basic rules allow -/
 theorem ber_compat : Compat berProfile Generated.berDecByType :=
